@@ -326,6 +326,9 @@ func (l *listener) Listen() error {
 			return mangos.ErrTLSNoConfig
 		}
 		tcfg = v.(*tls.Config)
+		if tcfg == nil {
+			return mangos.ErrTLSNoConfig
+		}
 		if tcfg.Certificates == nil || len(tcfg.Certificates) == 0 {
 			return mangos.ErrTLSNoCert
 		}
